@@ -141,10 +141,22 @@ CHAIN_FIELDS = {'wallet_id': 'self.wallet_id', 'purpose': 'purpose', 'network_na
                 'change': 'change', 'cosigner_id': 'cosigner_id', 'depth': 'self.key_depth'}
 
 
+def _drop_kw(tree, fname, kw):
+    for f in ast.walk(tree):
+        if isinstance(f, ast.FunctionDef) and f.name == fname:
+            for c in ast.walk(f):
+                if isinstance(c, ast.Call) and isinstance(c.func, ast.Attribute) and c.func.attr == 'filter_by' and any(k.arg == kw for k in c.keywords):
+                    c.keywords = [k for k in c.keywords if k.arg != kw]
+                    return True
+    return False
+
+
 @PROP.obligation('C09.next-index', canaries=[
     mut.replace_expr('wallets', 'Wallet.new_keys', 'DbKey.address_index.desc()', 'DbKey.id.desc()', 'next index taken from the most recently created key'),
     mut.replace_expr('wallets', 'Wallet.new_keys', 'prevkey.address_index + 1', 'prevkey.address_index', 'last index issued again'),
     mut.replace_expr('wallets', 'Wallet.keys_for_path', "int(fullpath[-1].strip(\"'\")) + len(new_keys)", "int(fullpath[-1].strip(\"'\")) + len(new_keys) + 1", 'bulk creation skips an index'),
+    mut.replace_expr('wallets', 'Wallet.last_address_index', 'witness_type=self.witness_type, change=change', 'witness_type=self.witness_type', 'highest index taken over both chains') if False else
+    mut.Canary('highest index taken over both chains', 'wallets', lambda tree: _drop_kw(tree, 'last_address_index', 'change')),
 ])
 def next_index(ctx):
     """Wallet.new_keys: the previous key of the chain is looked up with filter_by(wallet_id, purpose, network_name, account_id, witness_type,
@@ -184,6 +196,25 @@ def next_index(ctx):
     kwn = {k.arg: k.value for c in calls for k in c.keywords}
     for name in ('address_index', 'account_id', 'witness_type', 'network', 'cosigner_id', 'change', 'number_of_keys'):
         ctx.match(q, 'argument %s of keys_for_path' % name, kwn.get(name), name, None, calls[0])
+    # sibling: last_address_index looks at the same chain (its answer bounds address_index()): the same set of chain columns, none dropped
+    q3 = 'wallets:Wallet.last_address_index'
+    f3 = ctx.repo.func(q3)
+    asg3 = [n for n in walk_no_nested(f3) if isinstance(n, ast.Assign) and unparse(n.targets[0]) == 'prevkey']
+    if len(asg3) != 1:
+        ctx.undecided('Wallet.last_address_index: previous-key query not found')
+    qs3 = parse_chain(asg3[0].value)
+    if qs3 is None:
+        ctx.undecided('Wallet.last_address_index: previous-key lookup is not a query chain')
+    ctx.saw('last_address_index: filter_by %s order_by %s' % (sorted(qs3.filter_by), qs3.order_by))
+    for col in CHAIN_FIELDS:
+        if col not in qs3.filter_by:
+            ctx.violate(q3, 'the highest-index query does not filter on %s (Wallet.new_keys does)' % col, asg3[0],
+                        'the bound that address_index() checks is the highest index of ANOTHER chain: a key beyond the end of the shorter chain is created out of order, leaving never-issued indexes')
+    for col in ('change', 'account_id', 'cosigner_id'):
+        if col in qs3.filter_by:
+            ctx.match(q3, 'filter %s of the highest-index query' % col, qs3.filter_by[col], col, f3, asg3[0])
+    if qs3.order_by != ['DbKey.address_index.desc()'] or qs3.terminal != 'first':
+        ctx.unsure('%s: highest index selected by %s / %s' % (q3, qs3.order_by, qs3.terminal))
     # bulk branch
     q2 = 'wallets:Wallet.keys_for_path'
     f2 = ctx.repo.func(q2)
